@@ -8,6 +8,7 @@ export TMPDIR=/tmp/confirm/tmp
 mkdir -p $TMPDIR
 [ -d $CARGO_TARGET_DIR ] || cp -a /repo/target $CARGO_TARGET_DIR
 for ID in "$@"; do
+  EXTRA=""; [ "$ID" = "C17" ] && EXTRA="--features verif"
   OUT=/tmp/seed/$ID/out
   WT=/tmp/confirm/wt-$ID
   git -C /repo worktree remove --force $WT 2>/dev/null
@@ -15,11 +16,11 @@ for ID in "$@"; do
   cd $WT
   R=/tmp/confirm/$ID.result; : > $R
   if ! git apply $OUT/demo.diff 2>>$R; then echo "demo.diff does not apply" >> $R; cd /; git -C /repo worktree remove --force $WT; continue; fi
-  cargo test --workspace --no-fail-fast --offline > /tmp/confirm/$ID.demo.log 2>&1
+  cargo test --workspace --no-fail-fast --offline $EXTRA > /tmp/confirm/$ID.demo.log 2>&1
   rm -rf $TMPDIR; mkdir -p $TMPDIR
   echo "DEMO-ONLY: $(grep -E '^test result' /tmp/confirm/$ID.demo.log | head -1)" >> $R
   if ! git apply $OUT/break.diff 2>>$R; then echo "break.diff does not apply" >> $R; cd /; git -C /repo worktree remove --force $WT; continue; fi
-  cargo test --workspace --no-fail-fast --offline > /tmp/confirm/$ID.both.log 2>&1
+  cargo test --workspace --no-fail-fast --offline $EXTRA > /tmp/confirm/$ID.both.log 2>&1
   rm -rf $TMPDIR; mkdir -p $TMPDIR
   echo "DEMO+BREAK: $(grep -E '^test result' /tmp/confirm/$ID.both.log | head -1)" >> $R
   echo "FAILED TESTS:" >> $R
